@@ -150,12 +150,19 @@ Section GLoop.
   Definition quit_all (s : gstate) : gstate :=
     fold_left (fun st l => upd_l st l (fun v => v <| gl_running := false |>)) (glevels s) s.
 
+  (* COUNTERFACTUAL SWITCH, [false] in the model of the code as it is.  [mark_first = true] is the variant that
+     marks the waiting line of the signal's class BEFORE the handlers (as MainLoop._process_signal does) instead
+     of after them; it exists only so that the check can search for sessions on which that ordering is observable
+     (finding F9(e)) — every theorem and every correspondence run uses [false]. *)
+  Variable mark_first : bool.
+
   (* source.destroy(); self._mark_signal_processed(signal) — the tail of _run_handlers *)
   Definition finish_source (s : gstate) (l : nat) (src : gsource) : gstate :=
     let s1 := upd_l s l (fun v => v <| gl_sources := upd_source (gl_sources v) (gs_seq src)
                                                                   (fun x => x <| gs_destroyed := true |>) |>) in
     gemit (EDispatchEnd (sg_id (gs_sig src)))
-          (s1 <| gtickets := mark_line_to_go (gtickets s1) (sg_cls (gs_sig src)) |>).
+          (if mark_first then s1
+           else s1 <| gtickets := mark_line_to_go (gtickets s1) (sg_cls (gs_sig src)) |>).
 
   Inductive gcall :=
   | GRun                                   (* AbstractEventLoop.run + GLibEventLoop._run *)
@@ -242,7 +249,8 @@ Section GLoop.
       (* ---- _run_handlers ---- *)
       | GRunHandlers l src =>
         let sg := gs_sig src in
-        let s0 := gemit (EDispatch (sg_id sg) l (length (glevels s))) s in
+        let s00 := gemit (EDispatch (sg_id sg) l (length (glevels s))) s in
+        let s0 := if mark_first then s00 <| gtickets := mark_line_to_go (gtickets s00) (sg_cls sg) |> else s00 in
         let '(o, s1) := if gforce_quit s0 then (ONormal, s0) else gexec f (GHandlerLoop src 0) s0 in
         match o with
         | ONormal => (ONormal, finish_source s1 l src)
